@@ -163,7 +163,7 @@ PROPS = {
                  'one program in four is rendered from 2-16 threads on a fresh shared instance (random job orders, start barrier) and compared byte for byte with the sequential reference.',
         'note': 'Send+Sync of Tera, Context, Value, Key, Kwargs, Error, Number is a compile-time assertion in the harness (a regression is a build failure attributed to this check); data races proper are the business of the TSan/Miri legs, the quick tier only compares results',
         'rule': "one evaluation = one render or one injected failure point; a cell = (render variant, call/byte failure site, failure kind, short/full writes), (variant, ok/err) for the channel differential and the thread count for concurrency",
-        'must_observe': ['channel_pairs_compared', 'failure_points_injected', 'purity_checks', 'concurrent_renders_compared', 'channel_pairs_at_nesting_limits'],
+        'must_observe': ['channel_pairs_compared', 'failure_points_injected', 'purity_checks', 'concurrent_renders_compared', 'channel_pairs_at_nesting_limits', 'includes_from_one_off_strings_compared'],
     },
     'C09': {
         'scale': {'quick': 3, 'thorough': 1.5},
@@ -241,11 +241,11 @@ PROPS = {
         'level': 'exploration',
         'technique': 'reference-model monitor for inheritance: unique sentinel tokens in every block body make the rendered text the resolution trace; model resolver (most-derived definition, super() to the nearest defining ancestor) vs real renders and render_block',
         'claim': 'Chains of 1-8 templates; per level a random subset of 6 block names nested up to 3 deep, inside filter sections and set-blocks, child blocks introduced inside overridden blocks, ancestors that skip a block, super() at several levels, super() without any ancestor definition (must be an error), '
-                 'orphan top-level child blocks (must be rejected), shapes that recurse without bound (must be an error), registered as one shuffled batch, one call per template, a batch followed by re-adding a middle template, a batch in which one template first extends a decoy root and is then re-registered under its real parent, or (with a fallback prefix) under a decoy root that the real root, registered last, shadows. Every leaf of every chain is rendered and compared; '
+                 'orphan top-level child blocks (must be rejected), shapes that recurse without bound (must be an error), registered as one shuffled batch, one call per template, a batch followed by re-adding a middle template, a batch in which one template first extends a decoy root and is then re-registered under its real parent, or (with a fallback prefix) under a decoy root that the real root, registered last, shadows. Every leaf of every chain is rendered, directly and through a template that includes it, and compared; '
                  'render_block(t, b) is compared with the text the model attributes to b for every block the full render reaches.',
         'note': 'block text is compared before enclosing filter sections transform it (what the block itself writes); renders run in a supervised child process',
         'rule': "one evaluation = one registration, render or render_block; a cell = (chain length, leaf level, block nesting, number of super() calls, blocks inside captures or not, model outcome)",
-        'must_observe': ['leaf_renders_compared', 'block_renders_compared', 'orphan_block_sets', 'both_refuse', 'chains_reparented_after_registration'],
+        'must_observe': ['leaf_renders_compared', 'block_renders_compared', 'orphan_block_sets', 'both_refuse', 'chains_reparented_after_registration', 'included_leaves_compared'],
     },
     'C05': {
         'scale': {'quick': 2, 'thorough': 10},
